@@ -144,3 +144,42 @@ package cmd
 //@   modifies ghost(nopen, 0), ghost(nlocked, 0)
 //@   ensures loud: result == nil ==> cbran(f) && cbret(f) == nil
 //@   ensures propagated: cbran(f) && cbret(f) != nil ==> result != nil
+
+// ---------------------------------------------------------------- reading files (C16, C13, C08..C11)
+
+//@ spec listOK(h *Header, tl TimeSeriesList) bool = h != nil && validHeader(*h) && len(tl) == len(h.archiveInfoList)
+
+//@ func readWhisperFileLocal
+//@   props C16 C13 C08 C09 C10
+//@   requires now != 0 && now - from <= 2147483647
+//@   assume clockOK(db, now) at db
+//@   modifies ghost(nopen, 0), ghost(nlocked, 0)
+//@   ensures no_leak: ghost(nopen, 0) == old(ghost(nopen, 0)) && ghost(nlocked, 0) == old(ghost(nlocked, 0))
+//@   ensures ok: result2 == nil ==> listOK(result0, result1)
+//@   ensures failed: result2 != nil ==> result0 == nil && len(result1) == 0
+//@   ensures unselected: result2 == nil && archiveID >= 0 ==> forall i :: 0 <= i && i < len(result1) && i != archiveID ==> result1[i] == nil
+
+//@ spec allNonNil(tl TimeSeriesList) bool = forall i :: 0 <= i && i < len(tl) ==> tl[i] != nil
+//@ spec shaped(ts *TimeSeries) bool = ts == nil || (ts.step > 0 && ts.fromTime <= ts.untilTime && len(ts.values) == (ts.untilTime - ts.fromTime) / ts.step)
+//@ spec allShaped(tl TimeSeriesList) bool = forall i :: 0 <= i && i < len(tl) ==> shaped(tl[i])
+
+//@ func getFileDataFromRemote
+//@   props C15 C12 C16
+//@   ensures ok: result2 == nil ==> listOK(result0, result1) && allNonNil(result1) && allShaped(result1) && fresh(result0)
+//@   ensures failed: result2 != nil ==> result0 == nil && len(result1) == 0
+//@ loop getFileDataFromRemote#0
+//@   invariant bounds: 0 <= i && i <= len(h.archiveInfoList) && len(tsList) == len(h.archiveInfoList) && tsList.arr > old(top) && validHeader(*h)
+//@   invariant decoded: forall k :: 0 <= k && k < i ==> tsList[k] != nil && shaped(tsList[k])
+
+//@ func readWhisperFileRemote
+//@   props C12 C16
+//@   ensures ok: result2 == nil ==> listOK(result0, result1) && allNonNil(result1) && allShaped(result1)
+//@   ensures failed: result2 != nil ==> result0 == nil && len(result1) == 0
+
+//@ func readWhisperFile
+//@   props C16 C13 C08 C09 C12
+//@   requires now != 0 && now - from <= 2147483647
+//@   modifies ghost(nopen, 0), ghost(nlocked, 0)
+//@   ensures no_leak: ghost(nopen, 0) == old(ghost(nopen, 0)) && ghost(nlocked, 0) == old(ghost(nlocked, 0))
+//@   ensures ok: result2 == nil ==> listOK(result0, result1)
+//@   ensures failed: result2 != nil ==> result0 == nil && len(result1) == 0
